@@ -96,7 +96,8 @@ def check_pool(pid, tier, seed, t0):
         "rule": "a case is one schedule (pool configuration + environment choices per event-loop handle / user-code "
                 "point) executed on the real pool and judged record by record by spec/Monitor.tla; it counts as "
                 "non-trivial for this property when the antecedent of at least one of the property's clauses was "
-                "exercised (monitor hit set); distinct = distinct schedule content",
+                "exercised (monitor hit set; antecedents that nearly every execution exercises - tools/poolcheck.py "
+                "TRIVIAL_HITS - do not count); distinct = distinct schedule content",
         "samples": res["samples"][:4],
         "exhaustive": False,
         "model_checking_runs": tl,
